@@ -191,7 +191,12 @@ class Engine(CoreMixin, ExprMixin, StmtMixin, CallMixin, BuiltinMixin):
                 self.st = saved_st
                 self.frame.locals = saved_loc
         if name == 'implies':
-            a, b = [self.ev_bool(x) for x in node.args]
+            a = self.ev_bool(node.args[0])
+            if z3.is_false(z3.simplify(a)):
+                # statically false guard (e.g. a packet-shape test): the consequent may not even
+                # be well-typed for this case and is not evaluated
+                return mk_bool(True)
+            b = self.ev_bool(node.args[1])
             return mk_bool(z3.Implies(a, b))
         if name == 'iff':
             a, b = [self.ev_bool(x) for x in node.args]
@@ -593,6 +598,8 @@ class Engine(CoreMixin, ExprMixin, StmtMixin, CallMixin, BuiltinMixin):
             if has_quantifier(zc):
                 self.all_quant_inv.add(c.label)
                 if c.label not in self.quant_assumed:
+                    # a hypothesis all the same: known for identity discharge, just not given to the solver
+                    self.assumed.setdefault(zc.hash(), []).append(zc)
                     continue
             self.assume(zc)
         self.cover(self.unit_id + '/requires')
@@ -768,7 +775,7 @@ class Engine(CoreMixin, ExprMixin, StmtMixin, CallMixin, BuiltinMixin):
                 self.ob('frame', '%s.%s' % key, goal, props=(), aux=True)
         gallowed = {m[6:] for m in mods if m.startswith('ghost.')}
         for g, v in self.st.ghost.items():
-            if g in gallowed:
+            if g in gallowed or star:
                 continue
             o = self.old.ghost[g]
             if v.z is not None and not v.z.eq(o.z):
